@@ -185,6 +185,13 @@ func registerModels(P *Program) {
 		ex.draws = append(ex.draws, e)
 		return Tuple{ex.newBig(BigVal{I: e, Factors: []*smt.Term{e}, Tag: e.Name}), Iface{}}, true
 	}
+	m[TargetModule+".randomElementMultiplicativeGroup"] = func(ex *Exec, fn *ssa.Function, args []Value) (Value, bool) {
+		mod := ex.argBig(args[0], "randomElementMultiplicativeGroup")
+		r := ex.freshInt("rand", big.NewInt(1), mod.I.Hi)
+		ex.assume(smt.Lt(r, mod.I))
+		ex.draws = append(ex.draws, r)
+		return Tuple{ex.newBig(BigVal{I: r, Tag: r.Name}), Iface{}}, true
+	}
 	m[commonPkg+".ModInverse"] = func(ex *Exec, fn *ssa.Function, args []Value) (Value, bool) {
 		a, n := ex.argBig(args[0], "ModInverse"), ex.argBig(args[1], "ModInverse")
 		if k := ex.modKind(n.I); k == "order" || k == "group" {
